@@ -133,7 +133,7 @@ def check_flat(ctx, rng, n):
                                   cap=30, sectors_api=_sectors)
 
 
-def make_trace(tid, rng, nops=25):
+def make_trace(tid, rng, nops=25, **opt):
     v = rng.choice(["hosted", "hosted", "footer", "stream", "cowd", "se"])
     if v == "cowd":
         grain, gtes = rng.choice([1, 8]), 4096
@@ -145,6 +145,9 @@ def make_trace(tid, rng, nops=25):
     ng = rng.randrange(3, 60)
     if v == "cowd":
         ng = rng.randrange(3, 40)
+    if opt.get("many"):  # more grain tables than the 128-entry table cache holds
+        v, grain, gtes, ng = rng.choice(["hosted", "footer"]), 8, 4, rng.randrange(600, 800)
+        gbytes = grain * 512
     npos = ng + 2
     pos = list(range(1, npos + 1))
     if rng.random() < 0.6:
@@ -174,7 +177,7 @@ def make_trace(tid, rng, nops=25):
     b = disk.Built(open=lambda: _open_vmdk(vf), cell=gbytes, size=cap_b, bases={0: info["data_base"]})
     s = b.open()
     fresh = b.open()
-    rec = record.Recorder(s, cap_b, probe=fresh.readoffset)
+    rec = record.Recorder(s, cap_b, probe=fresh.readoffset, align=opt.get("align"))
     record.random_ops(rec, rng, cap_b, nops, unit=gbytes, big=min(40 * gbytes + 4096, 2 << 20), sectors_fn=s.read_sectors, ssize=512)
     comp = v == "stream"
     timg = {"class": "cowd" if v == "cowd" else "se" if v == "se" else "sparse", "gtes": gtes, "cb": 1, "cap": ng,
